@@ -1,7 +1,7 @@
 import json
 import os
 
-from lib import COQ, REPO, Lock, sh
+from lib import ALT, COQ, REPO, Lock, sh
 
 
 def robust_flow(ctx, pkg, mismatch_key, coq_targets=(), proof=True, run_timeout=3000, coq_timeout=2400):
@@ -65,6 +65,47 @@ def robust_flow(ctx, pkg, mismatch_key, coq_targets=(), proof=True, run_timeout=
     return s
 
 
+ALT_OBLIGATIONS = """
+From Coq Require Import String List Bool.
+From ALT Require GenC07Purity.
+From CV Require Import C07.Sem C07.Soundness C07.Sites.
+Module A := ALT.GenC07Purity.
+Definition find_b (n : string) := find (fun e => String.eqb (A.bn e) n) A.builtins.
+Definition view_b (b : builtin) := match find_b (bname b) with Some e => A.bview e | None => false end.
+Lemma alt_table_ok :
+  forallb (fun e => implb (A.bmut e) (negb (A.bview e)) && implb (A.bview e) (A.bfpview e)) A.builtins = true.
+Proof. vm_compute. reflexivity. Qed.
+Lemma alt_table_consistent :
+  forallb (fun b => match find_b (bname b) with Some e => Bool.eqb (A.bmut e) (mutating b) | None => false end) all_builtins = true.
+Proof. vm_compute. reflexivity. Qed.
+Lemma alt_view_builtin_pure : forall b, view_b b = true -> mutating b = false.
+Proof. intros b H. destruct b; vm_compute in H; try discriminate; reflexivity. Qed.
+Lemma alt_purity_wiring : sites_eqb A.purity_sites expected_sites = true.
+Proof. vm_compute. reflexivity. Qed.
+"""
+
+
+def alt_obligations(ctx, gen):
+    """The table / wiring obligations of Properties/C07.v, re-stated over the table generated from the scratch tree."""
+    d = os.path.dirname(gen)
+    rc, out = sh(["coqc", "-Q", d, "ALT", gen], cwd=d, timeout=600)
+    if rc == 0:
+        path = os.path.join(d, "alt_obligations.v")
+        with open(path, "w") as f:
+            f.write(ALT_OBLIGATIONS)
+        rc, out = sh(["coqc", "-Q", os.path.join(COQ, "theories"), "CV", "-Q", d, "ALT", path], cwd=d, timeout=900)
+    if rc != 0:
+        m = None
+        import re
+        m = re.search(r'File "([^"]+)", line (\d+)', out)
+        l1 = dict(ctx.l1 or {"obligations": 0, "discharged": 0, "axioms": {}, "theorems": []})
+        l1["ok"] = False
+        l1["broken_at"] = "table/wiring obligations over the table generated from %s (%s)" % (REPO, (m.group(1) + ":" + m.group(2)) if m else "?")
+        l1["log"] = out[-3000:]
+        ctx.l1 = l1
+        ctx.log("proof leg BROKEN: " + l1["broken_at"])
+
+
 def run(ctx):
     ctx.assumptions += [
         "corpus/C07/mutates_receiver.json (which built-ins mutate their receiver or account state) is a hand-written ground truth",
@@ -81,7 +122,13 @@ def run(ctx):
                     {"broken": "go build ./c07", "log": out[-3000:]}, no_input=True)
         ctx.settle_l1()
         return
-    gen = os.path.join(COQ, "theories", "Gen", "GenC07Purity.v")
+    main_gen = os.path.join(COQ, "theories", "Gen", "GenC07Purity.v")
+    gen = main_gen
+    if ALT:
+        # a run against a scratch copy of onflow/cadence never rewrites the generated table of the real tree (that
+        # would force every later run to re-check the whole development): its table is checked separately below
+        os.makedirs(os.path.join(ctx.work, "altgen"), exist_ok=True)
+        gen = os.path.join(ctx.work, "altgen", "GenC07Purity.v")
     rc, out = ctx.go_run(binpath, ["-mode", "table", "-gen", gen, "-dir", ctx.work, "-repo", REPO], timeout=600)
     tpath = os.path.join(ctx.work, "table.json")
     if rc != 0 or not os.path.exists(tpath):
@@ -100,6 +147,8 @@ def run(ctx):
         # cases: the case checker does not depend on the obligations
         with Lock("coq"):
             sh(["make", "-j4", "theories/C07/Cases.vo"], cwd=COQ, timeout=1800)
+    if ALT and os.path.exists(gen) and (not os.path.exists(main_gen) or open(gen).read() != open(main_gen).read()):
+        alt_obligations(ctx, gen)
     # 3. correspondence + direct monitors
     robust_flow(ctx, "c07", lambda d: "model-mismatch:kind-%s" % d.get("kind"), proof=False)
     # a broken proof leg must not hide behind the known findings (which are concrete failing inputs of their own)
